@@ -491,6 +491,94 @@ def make_e_diamond(params, part, nparts):
     return h
 
 
+def run_rebased_case(case):
+    """Verification follows the interface's *current* ancestry: a chain IDerived(IMid(IBase)); an ancestor (IMid or IBase, never IDerived
+    itself) gains / loses the base IExtra, which adds an attribute, a method, or a wider signature for an inherited method; the
+    candidate is verified before, after the gain and after the loss (each optionally preceded by an earlier verification)."""
+    from zope.interface import Attribute, Interface, implementer
+    from zope.interface.exceptions import (BrokenImplementation, BrokenMethodImplementation, Invalid, MultipleInvalid)
+    from zope.interface.interface import InterfaceClass
+    from zope.interface.verify import verifyClass, verifyObject
+    level, extra_kind, vclass, warm, has_it = case
+
+    class IBase(Interface):
+        def ping(a):
+            pass
+
+    class IMid(IBase):
+        pass
+
+    class IDerived(IMid):
+        pass
+    if extra_kind == 0:
+        class IExtra(Interface):
+            extra = Attribute('an attribute')
+    elif extra_kind == 1:
+        class IExtra(Interface):
+            def more(x):
+                pass
+    else:
+        class IExtra(Interface):
+            def ping(a, b):
+                pass
+    body = 'def ping(self, a%s): pass\n' % (', b' if (has_it and extra_kind == 2) else '')
+    if has_it and extra_kind == 1:
+        body += 'def more(self, x): pass\n'
+    ns = {}
+    exec(body, ns)
+    if has_it and extra_kind == 0:
+        ns['extra'] = 1
+    K = implementer(IDerived)(type('K', (object,), dict(ns)))
+    target = [IMid, IBase][level]
+    old_bases = target.__bases__
+    verify = (lambda: verifyClass(IDerived, K)) if vclass else (lambda: verifyObject(IDerived, K()))
+
+    def outcome():
+        try:
+            verify()
+            return None
+        except MultipleInvalid as e:
+            return sorted(type(x).__name__ for x in e.exceptions)
+        except Invalid as e:
+            return [type(e).__name__]
+    reached(case, dict(case=case))
+    # with has_it and the wider ping(a, b): before the gain the interface says ping(a) and the candidate requires one more -> rejected
+    before_exp = ['BrokenMethodImplementation'] if (has_it and extra_kind == 2) else None
+    if warm & 1:
+        got = outcome()
+        if got != before_exp:
+            raise Violation('before any re-basing: verification gives %r, expected %r (case %r)' % (got, before_exp, case), signature='C17:rebased:before')
+    # the ancestor gains IExtra in front of its bases (so that IExtra's ping wins for extra_kind 2)
+    target.__bases__ = (IExtra,) + tuple(b for b in old_bases if b is not Interface)
+    if extra_kind == 0:
+        exp = None if (has_it or vclass) else ['BrokenImplementation']       # verifyClass cannot check plain attributes
+    elif extra_kind == 1:
+        exp = None if has_it else ['BrokenImplementation']
+    elif level == 0:
+        exp = None if has_it else ['BrokenMethodImplementation']      # IExtra now precedes IBase in IDerived's resolution order
+    else:
+        exp = before_exp              # IBase defines ping itself and precedes its own new base: nothing changes for ping
+    got = outcome()
+    if got != exp:
+        raise Violation('%s after %s.__bases__ gained IExtra (%s)%s: verification of IDerived gives %r, the current ancestry demands %r' % (
+            'verifyClass' if vclass else 'verifyObject', target.__name__, ['an attribute', 'a method', 'a wider ping(a, b)'][extra_kind],
+            ' (verified once before)' if warm & 1 else '', got, exp), signature='C17:rebased:gain')
+    if warm & 2:
+        outcome()
+    target.__bases__ = old_bases
+    got = outcome()
+    if got != before_exp:
+        raise Violation('after %s.__bases__ lost IExtra again: verification gives %r, expected %r (case %r)' % (target.__name__, got, before_exp, case),
+                        signature='C17:rebased:loss')
+
+
+def make_e_rebased(params, part, nparts):
+    def h(l: int, k: int, v: int, w: int, i: int):
+        case = (pick(l, 2), pick(k, 3), pick(v, 2), pick(w, 4), pick(i, 2))
+        native(run_rebased_case, case)
+    return h
+
+
 _ENC = ['zope.interface.verify:_verify', 'zope.interface.verify:_verify_element',
         'zope.interface.verify:_incompat', 'zope.interface.interface:fromFunction',
         'zope.interface.exceptions:MultipleInvalid']
@@ -518,6 +606,12 @@ HARNESSES = [
             bounds='every subset of {undeclared, tentative, missing attribute, method missing/wrong signature/non-callable/uninspectable x2 (one inherited)} x {no aliased elements, elements whose key differs from the description name (second name for one description, one-word Attribute description, re-exported inherited method): all present / one missing / wrong signature} x verifyObject(instance) / verifyClass / verifyObject(class that directly provides the interface)',
             oracle='exact exception type; MultipleInvalid members as a multiset of types',
             assumptions=['verifyClass does not check presence of plain attributes (docs/verify.rst)']),
+    Harness('e_rebased', make_e_rebased, kind='E', impls=('py',),
+            tiers=dict(quick=dict(budget_s=30, parts=1), thorough=dict(budget_s=60, parts=1)),
+            encoded=_ENC + ['zope.interface.interface:InterfaceClass.namesAndDescriptions'],
+            bounds='chain IDerived(IMid(IBase)); IMid or IBase gains and loses a base that adds an attribute / a method / a wider signature of an '
+                   'inherited method; candidate with or without it; verifyObject / verifyClass; with or without an earlier verification before each step',
+            oracle='the outcome (None, or the sorted failure types) the current ancestry demands, before, after the gain, after the loss'),
     Harness('e_diamond', make_e_diamond, kind='E', impls=('py',),
             tiers=dict(quick=dict(budget_s=30, parts=1), thorough=dict(budget_s=30, parts=1)),
             encoded=_ENC + ['zope.interface.interface:InterfaceClass.namesAndDescriptions'],
